@@ -89,6 +89,48 @@ impl Decimal {
 //%endif
     { unimplemented!() }
 }
+// Decimal::one() = 10^18 atomics, Decimal::zero() = 0; `-` aborts on underflow, `+` on overflow (checked arithmetic of cosmwasm-std 1.x)
+impl Decimal {
+    #[verifier::external_body] pub fn one() -> (r: Decimal) ensures r.0 as nat == dd() { unimplemented!() }
+    #[verifier::external_body] pub fn zero() -> (r: Decimal) ensures r.0 == 0 { unimplemented!() }
+    #[verifier::external_body] pub fn is_zero(&self) -> (r: bool) ensures r == (self.0 == 0) { unimplemented!() }
+}
+impl ops::Sub for Decimal { type Output = Decimal;
+    #[verifier::external_body]
+    fn sub(self, rhs: Decimal) -> (r: Decimal)
+//%if A
+        ensures r.0 == self.0 - rhs.0
+//%else
+        ensures self.0 >= rhs.0, r.0 == self.0 - rhs.0
+//%endif
+    { unimplemented!() } }
+impl SubSpecImpl for Decimal {
+    open spec fn obeys_sub_spec() -> bool { false }
+//%if A
+    open spec fn sub_req(self, rhs: Decimal) -> bool { self.0 >= rhs.0 }
+//%else
+    open spec fn sub_req(self, rhs: Decimal) -> bool { true }
+//%endif
+    open spec fn sub_spec(self, rhs: Decimal) -> Decimal { arbitrary() }
+}
+impl ops::Add for Decimal { type Output = Decimal;
+    #[verifier::external_body]
+    fn add(self, rhs: Decimal) -> (r: Decimal)
+//%if A
+        ensures r.0 == self.0 + rhs.0
+//%else
+        ensures self.0 + rhs.0 < p128(), r.0 == self.0 + rhs.0
+//%endif
+    { unimplemented!() } }
+impl AddSpecImpl for Decimal {
+    open spec fn obeys_add_spec() -> bool { false }
+//%if A
+    open spec fn add_req(self, rhs: Decimal) -> bool { self.0 + rhs.0 < p128() }
+//%else
+    open spec fn add_req(self, rhs: Decimal) -> bool { true }
+//%endif
+    open spec fn add_spec(self, rhs: Decimal) -> Decimal { arbitrary() }
+}
 // Uint128 * Decimal = floor(u * d / 10^18) (256-bit intermediate); aborts only if the result exceeds 128 bits
 impl ops::Mul<Decimal> for Uint128 { type Output = Uint128;
     #[verifier::external_body]
@@ -313,6 +355,21 @@ impl OrdSpecImpl for Uint128 {
 // std::cmp::min(a, b): b only when b < a
 pub assume_specification<T: Ord>[ core::cmp::min ](a: T, b: T) -> (r: T)
     ensures T::obeys_cmp_spec() ==> r == (if b.cmp_spec(&a) == Ordering::Less { b } else { a });
+// str::starts_with / ends_with with a string pattern (&String, &str, String): prefix / suffix of the text
+pub uninterp spec fn pat_text<P>(p: P) -> Seq<char>;
+pub open spec fn is_prefix(p: Seq<char>, s: Seq<char>) -> bool { p.len() <= s.len() && s.subrange(0, p.len() as int) == p }
+pub open spec fn is_suffix(p: Seq<char>, s: Seq<char>) -> bool { p.len() <= s.len() && s.subrange(s.len() - p.len(), s.len() as int) == p }
+#[verifier::allow(undeclared_external_trait)]
+pub assume_specification<P: core::str::pattern::Pattern>[ str::starts_with ](s: &str, p: P) -> (r: bool)
+    ensures r == is_prefix(pat_text(p), s@);
+pub broadcast proof fn axiom_pat_string(p: &String) ensures #[trigger] pat_text::<&String>(p) == p@ { admit(); }
+pub broadcast proof fn axiom_pat_str(p: &str) ensures #[trigger] pat_text::<&str>(p) == p@ { admit(); }
+// Option::filter(p): keeps the value exactly when the predicate accepts it
+pub assume_specification<T, P: FnOnce(&T) -> bool>[ Option::<T>::filter ](o: Option<T>, p: P) -> (r: Option<T>)
+    requires o is Some ==> p.requires((&o->Some_0,)),
+    ensures o is None ==> r is None,
+        r is Some ==> o is Some && r == o && p.ensures((&o->Some_0,), true),
+        o is Some && r is None ==> p.ensures((&o->Some_0,), false);
 // u64::pow: aborts on overflow (overflow-checks = true)
 pub assume_specification[ u64::pow ](b: u64, e: u32) -> (r: u64)
 //%if A
